@@ -51,9 +51,16 @@ structure Check where
   lo : Int
   hi : Int
 
+/-- a `_dictify` / `_datify` hook pair a class may define (exact inverses of each other):
+`rename`: `_dictify` gives `{"h_" + name: value}`, `_datify` strips the prefix again (and refuses a key without it);
+`wrap`:   `_dictify` gives `{name: [value]}`, `_datify` takes the single element out again (and refuses anything else) -/
+inductive Hook | rename | wrap
+deriving DecidableEq, Repr
+
 structure Class where
   fields : List Field
   check : Option Check := none
+  hook : Option Hook := none
 
 abbrev Schema := List Class
 
@@ -126,20 +133,53 @@ def pick (orig : Tree) : List (Nat × Tree) → Tree
   | (c, .obj c' ks vs) :: rest => if c' = c then .obj c' ks vs else pick orig rest
   | _ :: rest => pick orig rest
 
+def stripH : Key → Option Key
+  | 104 :: 95 :: rest => some rest
+  | _ => none
+
+def unwrap1 : Tree → Option Tree
+  | .list [v] => some v
+  | _ => none
+
+/-- `cls._datify(d)` of a hooked class on a dict (any exception inside it is swallowed by `datify`: `orig`) -/
+def viaHook (h : Hook) (c : Nat) (k : Class) (ks : List Key) (vs : List Tree) (orig : Tree) : Tree :=
+  match h with
+  | .rename => match ks.mapM stripH with
+    | some ks' => construct c k ks' vs orig
+    | none => orig
+  | .wrap => match vs.mapM unwrap1 with
+    | some vs' => construct c k ks vs' orig
+    | none => orig
+
 mutual
 def datify (S : Schema) : Ann → Tree → Tree
   | a, .dict ks vs =>
-    pick (.dict ks vs) ((candidates S a).map fun ck => (ck.1, construct ck.1 ck.2 ks (datifyL S ck.2 ks vs) (.dict ks vs)))
-  | a, .list [] =>            -- `for f in []`: no keyword arguments at all
-    pick (.list []) ((candidates S a).map fun ck => (ck.1, construct ck.1 ck.2 [] [] (.list [])))
+    pick (.dict ks vs) ((candidates S a).map fun ck => (ck.1,
+      match ck.2.hook with
+      | none => construct ck.1 ck.2 ks (datifyL S ck.2 ks vs) (.dict ks vs)
+      | some h => viaHook h ck.1 ck.2 ks vs (.dict ks vs)))      -- a `_datify` hook replaces the field-by-field conversion
+  | a, .list [] =>            -- `for f in []`: no keyword arguments at all (a hook wants a dict: it raises, `d` comes back)
+    pick (.list []) ((candidates S a).map fun ck => (ck.1,
+      match ck.2.hook with | none => construct ck.1 ck.2 [] [] (.list []) | some _ => .list []))
   | a, .str [] =>             -- `for f in ""`
-    pick (.str []) ((candidates S a).map fun ck => (ck.1, construct ck.1 ck.2 [] [] (.str [])))
+    pick (.str []) ((candidates S a).map fun ck => (ck.1,
+      match ck.2.hook with | none => construct ck.1 ck.2 [] [] (.str []) | some _ => .str []))
   | _, t => t                 -- not iterable / `fieldtypes[f]` or `d[f]` raises: returned unchanged
 /-- `datify(fieldtypes[f], d[f])` for the keys of `d` in order -/
 def datifyL (S : Schema) (k : Class) : List Key → List Tree → List Tree
   | name :: ks, v :: vs => datify S (k.annOf name) v :: datifyL S k ks vs
   | _, _ => []
 end
+
+/-- `dictify(x)` as the methods call it: the class's own `_dictify` hook when it has one — for the object handed in ONLY
+(`dataclasses.asdict` recurses into nested data objects itself and knows nothing of their hooks) -/
+def dictifyTop (S : Schema) : Tree → Tree
+  | .obj c ks vs =>
+    match (S[c]?).bind (·.hook) with
+    | some .rename => .dict (ks.map fun k => 104 :: 95 :: k) (dictifyL vs)
+    | some .wrap => .dict ks ((dictifyL vs).map fun v => .list [v])
+    | none => dictify (.obj c ks vs)
+  | t => dictify t
 
 /-- `cls._fromdict(d)`: datify, then `isinstance(dom, cls)` -/
 def fromdict (S : Schema) (c : Nat) (d : Tree) : Except Exn Tree :=
@@ -153,7 +193,7 @@ structure Codec where
   dec : List Nat → Option Tree
 
 /-- `x._asjson()` / `_ascbor()` / `_asmgpk()` -/
-def asraw (C : Codec) (x : Tree) : List Nat := C.enc (dictify x)
+def asraw (C : Codec) (x : Tree) : List Nat := C.enc (dictify x)      -- for a class without hooks (`dictifyTop` otherwise)
 
 /-- `cls._fromjson(s)` / `_fromcbor(s)` / `_frommgpk(s)` -/
 def fromraw (S : Schema) (C : Codec) (c : Nat) (raw : List Nat) : Except Exn Tree :=
